@@ -7,10 +7,10 @@ import casadi as ca
 import life
 from observe import observe, set_x, quiet
 
-OPS = ['add_state', 'subject_to', 'clear_constraints', 'add_objective', 'method', 'solver', 'set_T', 'set_t0', 'set_value',
+OPS = ['set_value_cat', 'add_state', 'subject_to', 'clear_constraints', 'add_objective', 'method', 'solver', 'set_T', 'set_t0', 'set_value',
        'set_initial', 'sample', 'value', 'jacobian', 'solve', 'sol_sample', 'save']
 ARGS = {'subject_to': ['ka', 'kb'], 'method': ['MS2', 'MS3', 'SS2', 'DC2'], 'solver': ['ipopt', 'ipopt0', 'sqp'],
-        'set_T': [1, 2], 'set_t0': [0, 1], 'set_value': [1, 2, 3], 'set_initial': [1, 2]}
+        'set_T': [1, 2], 'set_t0': [0, 1], 'set_value': [1, 2, 3], 'set_value_cat': [2, 3], 'set_initial': [1, 2]}
 
 
 def project(l):
@@ -36,8 +36,9 @@ def project(l):
     t_, xs0 = ca.Function('s', [o.vx, o.vp], [ts, xs])(o.x0, o.pvec)
     t_ = np.array(t_).reshape(-1); xs0 = np.array(xs0).reshape(-1)
     pval = int(round(float(ca.Function('p', [o.vx, o.vp], [quiet(ocp.value, l.ps)])(o.x0, o.pvec))))
+    qval = int(round(float(ca.Function('p', [o.vx, o.vp], [quiet(ocp.value, l.qs)])(o.x0, o.pvec))))
     return {'ext': len(l.x) - 1, 'k0': rows.get('k0', 0), 'ka': rows.get('ka', 0) // per, 'kb': rows.get('kb', 0) // per, 'nobj': nobj,
-            'T': int(round(t_[-1] - t_[0])), 't0': int(round(t_[0])), 'pval': pval, 'guess': int(round(xs0[0])), 'meth': meth}
+            'T': int(round(t_[-1] - t_[0])), 't0': int(round(t_[0])), 'pval': pval, 'qval': qval, 'guess': int(round(xs0[0])), 'meth': meth}
 
 
 def record(seed, length=14):
@@ -54,7 +55,7 @@ def record(seed, length=14):
             if op == 'sol_sample' and not has_sol: continue
             break
         arg = rng.choice(ARGS[op]) if op in ARGS else ''
-        outcome, info = life.apply(l, op, str(arg) if op in ('set_T', 'set_t0', 'set_value', 'set_initial') else arg)
+        outcome, info = life.apply(l, op, str(arg) if op in ('set_T', 'set_t0', 'set_value', 'set_value_cat', 'set_initial') else arg)
         if op == 'subject_to' and outcome == 'ok': ncons += 1
         if op == 'clear_constraints': ncons = 0
         if op == 'add_objective': nobj += 1
@@ -74,7 +75,7 @@ def record(seed, length=14):
         else:
             ev['exc'] = info.get('exc')
         if ev['live'] is None:
-            ev['live'] = {'ext': 0, 'k0': 0, 'ka': 0, 'kb': 0, 'nobj': 0, 'T': 0, 't0': 0, 'pval': 0, 'guess': 0, 'meth': ''}
+            ev['live'] = {'ext': 0, 'k0': 0, 'ka': 0, 'kb': 0, 'nobj': 0, 'T': 0, 't0': 0, 'pval': 0, 'qval': 0, 'guess': 0, 'meth': ''}
         events.append(ev)
         if outcome == 'raise' and op != 'sol_sample': break
     return {'id': 'r%d' % seed, 'events': events}
